@@ -140,10 +140,18 @@ OPT_PASS = bool(os.environ.get('VERIF_OPT_PASS'))
 
 def second_pass_env(seed):
     """The rest of the second pass's interpreter configuration: an ASCII locale with UTF-8 mode switched off (what
-    open(), os.fsencode() and friends default to), and another string-hash seed (set and dict-of-set iteration order);
-    standard streams stay UTF-8 so that reports can be printed."""
+    open(), os.fsencode() and friends default to), another string-hash seed (set and dict-of-set iteration order), and
+    DEBUG-level logging; standard streams stay UTF-8 so that reports can be printed."""
     return {'LC_ALL': 'C', 'PYTHONCOERCECLOCALE': '0', 'PYTHONUTF8': '0', 'PYTHONIOENCODING': 'utf-8',
-            'PYTHONHASHSEED': str(1000 + int(seed))}
+            'PYTHONHASHSEED': str(1000 + int(seed)), 'VERIF_DEBUG_LOGGING': '1'}
+
+
+if os.environ.get('VERIF_DEBUG_LOGGING'):
+    # ... and an application that has turned its diagnostics up: every logger enabled down to DEBUG (records go nowhere),
+    # so that code guarded by isEnabledFor(DEBUG) runs
+    import logging
+    logging.getLogger().addHandler(logging.NullHandler())
+    logging.getLogger().setLevel(logging.DEBUG)
 
 
 def _optimised_pass(prop, tier, seed):
